@@ -1382,3 +1382,430 @@ Definition all_started (gm : N) (grps : list (N * N)) (items : list item) (ids :
   running (complete_run gm grps items ids) = [] ->
   panicked (complete_run gm grps items ids) = false ->
   unstarted (complete_run gm grps items ids) = [].
+
+(* ------------------------------------------------------------------ liveness outside F7's class *)
+
+(* the class predicate of F7, computable: every two members of one group have the same weight *)
+Definition uniform_b (items : list item) : bool :=
+  forallb (fun a => forallb (fun b =>
+    match it_grp a, it_grp b with
+    | Some k, Some k' => negb (k =? k') || (it_w a =? it_w b)
+    | _, _ => true
+    end) items) items.
+
+Lemma uniform_b_spec items a b k :
+  uniform_b items = true -> In a items -> In b items ->
+  it_grp a = Some k -> it_grp b = Some k -> it_w a = it_w b.
+Proof.
+  unfold uniform_b. intros H Ha Hb Ga Gb.
+  rewrite forallb_forall in H. specialize (H a Ha). rewrite forallb_forall in H. specialize (H b Hb).
+  rewrite Ga, Gb, N.eqb_refl in H. cbn in H. apply N.eqb_eq. exact H.
+Qed.
+
+Lemma gupdate_forall_k (Q : N -> grp -> Prop) k g g' gs :
+  glookup k gs = Some g -> Q k g' ->
+  (forall k' g0, glookup k' gs = Some g0 -> Q k' g0) ->
+  forall k' g1, glookup k' (gupdate k g' gs) = Some g1 -> Q k' g1.
+Proof.
+  intros Hk Hg' Hall k' g1 H. destruct (N.eq_dec k' k) as [->|Hne].
+  - rewrite (glookup_gupdate_same _ _ _ _ Hk) in H. injection H as <-. exact Hg'.
+  - rewrite glookup_gupdate_other in H by exact Hne. eapply Hall; exact H.
+Qed.
+
+Lemma lookup_gupdate_cases k g g' gs k' g1 :
+  glookup k gs = Some g -> glookup k' (gupdate k g' gs) = Some g1 ->
+  (k' = k /\ g1 = g') \/ (k' <> k /\ glookup k' gs = Some g1).
+Proof.
+  intros Hk H. destruct (N.eq_dec k' k) as [->|Hne].
+  - rewrite (glookup_gupdate_same _ _ _ _ Hk) in H. injection H as <-. left; auto.
+  - rewrite glookup_gupdate_other in H by exact Hne. right; auto.
+Qed.
+
+Lemma set_queue_lookup q k l k' g1 :
+  glookup k' (groups (set_queue q k l)) = Some g1 ->
+  (k' = k /\ g_queue g1 = l) \/ (k' <> k /\ glookup k' (groups q) = Some g1).
+Proof.
+  unfold set_queue. destruct (glookup k (groups q)) as [g|] eqn:Hk.
+  - unfold set_groups; cbn [groups]. intros H.
+    destruct (lookup_gupdate_cases _ _ _ _ _ _ Hk H) as [[-> ->]|[Hne Hl]]; [left; auto | right; auto].
+  - intros H. destruct (N.eq_dec k' k) as [->|Hne]; [congruence | right; auto].
+Qed.
+
+Lemma release_lookup q r rest k' g1 :
+  glookup k' (groups (release q r rest)) = Some g1 ->
+  exists g0, glookup k' (groups q) = Some g0 /\ g_queue g0 = g_queue g1.
+Proof.
+  unfold release; cbn [groups]. destruct (r_grp r) as [[k t]|]; [|intros H; exists g1; auto].
+  destruct (glookup k (groups q)) as [g|] eqn:Hk; [|intros H; exists g1; auto].
+  intros H. destruct (lookup_gupdate_cases _ _ _ _ _ _ Hk H) as [[-> ->]|[Hne Hl]].
+  - exists g. auto.
+  - exists g1. auto.
+Qed.
+
+Lemma group_load_pos_member k gm rs :
+  0 < group_load k gm rs -> exists r, In r rs /\ in_group k r = true.
+Proof.
+  induction rs as [|a rs IH]; [cbn; lia|].
+  rewrite group_load_cons, group_load_one. destruct (in_group k a) eqn:E.
+  - intros _. exists a. split; [left; reflexivity | exact E].
+  - intros H. destruct IH as (r & Hin & Hr); [lia|]. exists r. split; [right; exact Hin | exact Hr].
+Qed.
+
+Lemma gupdate_keys k g gs : map fst (gupdate k g gs) = map fst gs.
+Proof.
+  induction gs as [|[k1 g1] gs IH]; [reflexivity|]. cbn [gupdate].
+  destruct (k =? k1); cbn [map fst]; [reflexivity | rewrite IH; reflexivity].
+Qed.
+
+Lemma In_glookup_NoDup k g gs : NoDup (map fst gs) -> In (k, g) gs -> glookup k gs = Some g.
+Proof.
+  induction gs as [|[k1 g1] gs IH]; [intros _ []|]. cbn [map fst glookup]. intros Hnd Hin.
+  inversion Hnd as [|? ? Hnot Hnd']; subst. destruct Hin as [E|Hin].
+  - injection E as -> ->. rewrite N.eqb_refl. reflexivity.
+  - destruct (N.eqb_spec k k1) as [->|Hne]; [|apply IH; assumption].
+    exfalso. apply Hnot. apply in_map_iff. exists (k1, g). auto.
+Qed.
+
+Definition keys_are (ks : list N) (q : fq) : Prop := map fst (groups q) = ks.
+
+Lemma keys_step ks q o : keys_are ks q -> keys_are ks (fst (fq_step q o)).
+Proof.
+  apply (fq_step_pres (fun _ => True) (keys_are ks)); try (intros; apply Forall_True).
+  - intros q0 it H _ _. exact H.
+  - intros q0 k g it H _ _ _ _. unfold keys_are, start_in_group; cbn [fst groups]. rewrite gupdate_keys. exact H.
+  - intros q0 k g it H _ _ _ _. unfold keys_are, enqueue, set_groups; cbn [groups]. rewrite gupdate_keys. exact H.
+  - intros q0 k l H _. unfold keys_are, set_queue. destruct (glookup k (groups q0)); [|exact H].
+    unfold set_groups; cbn [groups]. rewrite gupdate_keys. exact H.
+  - intros q0 l H _. exact H.
+  - intros q0 H. exact H.
+  - intros q0 r l1 l2 H _. unfold keys_are, release; cbn [groups].
+    destruct (r_grp r) as [[k t]|]; [|exact H]. destruct (glookup k (groups q0)); [|exact H].
+    rewrite gupdate_keys. exact H.
+Qed.
+
+Lemma flat_map_nil {A B} (f : A -> list B) l : (forall x, In x l -> f x = []) -> flat_map f l = [].
+Proof.
+  induction l as [|a l IH]; [reflexivity|]. intros H. cbn [flat_map].
+  rewrite (H a (or_introl eq_refl)), IH; [reflexivity|]. intros x Hx. apply H. right; exact Hx.
+Qed.
+
+(* the source stream has been drained as far as the global limit allows *)
+Definition filled (q : fq) : Prop :=
+  panicked q = true \/ pending q = [] \/
+  exists it rest, pending q = it :: rest /\ has_space (gcur q) (gmax q) (it_w it) = false.
+
+Lemma fill_loop_filled l : forall q, filled (fst (fill_loop l q)).
+Proof.
+  induction l as [|it rest IH]; intros q; cbn [fill_loop].
+  - right; left; reflexivity.
+  - destruct (has_space (gcur q) (gmax q) (it_w it)) eqn:Hs.
+    + destruct (it_grp it) as [k|].
+      * destruct (glookup k (groups q)) as [g|]; [|left; reflexivity].
+        destruct (has_space (g_cur g) (g_max g) (it_w it)); cbn [fst]; apply IH.
+      * cbn [fst]. apply IH.
+    + right; right. exists it, rest. split; [reflexivity | exact Hs].
+Qed.
+
+Lemma fq_fill_filled q : filled (fst (fq_fill q)).
+Proof.
+  unfold fq_fill. destruct (panicked q) eqn:E; [left; exact E | apply fill_loop_filled].
+Qed.
+
+Lemma run_completes_filled ids : forall q,
+  filled q -> filled (fst (fq_run q (map OpComplete ids))).
+Proof.
+  induction ids as [|id ids IH]; intros q Hq; [exact Hq|].
+  cbn [map]. rewrite fq_run_cons; cbn [fst]. apply IH. cbn [fq_step].
+  destruct (fq_pop q id) as [res|]; [cbn [fst]; apply fq_fill_filled | exact Hq].
+Qed.
+
+Section Live.
+  Variable items : list item.
+  Hypothesis Hu : uniform_b items = true.
+
+  Let Pi (it : item) : Prop := In it items.
+
+  Definition Jp (q : fq) : Prop :=
+    fq_inv q /\ fq_prov Pi q /\
+    (forall k g, glookup k (groups q) = Some g -> Forall (fun it => it_grp it = Some k) (g_queue g)) /\
+    (forall r k t, In r (running q) -> r_grp r = Some (k, t) -> it_grp (r_item r) = Some k).
+
+  (* a group whose queue is not empty has a member in progress *)
+  Definition J5 (q : fq) (k : N) : Prop :=
+    forall g, glookup k (groups q) = Some g -> g_queue g <> [] ->
+    exists r, In r (running q) /\ in_group k r = true.
+
+  Definition J (q : fq) : Prop := Jp q /\ forall k, J5 q k.
+
+  Lemma Jp_set_pending q l : Jp q -> Forall Pi l -> Jp (set_pending q l).
+  Proof.
+    intros (Hi & (Hp & Hr & Hq) & H3 & H4) Hl.
+    split; [exact Hi|split; [split; [exact Hl|split; assumption]|split; assumption]].
+  Qed.
+
+  Lemma Jp_start_global q it :
+    Jp q -> Pi it -> has_space (gcur q) (gmax q) (it_w it) = true -> Jp (fst (start_global q it)).
+  Proof.
+    intros (Hi & (Hp & Hr & Hq) & H3 & H4) Hit Hs.
+    split; [apply start_global_inv; assumption|split; [|split]].
+    - split; [exact Hp|split; [|exact Hq]].
+      unfold start_global; cbn [fst running]. rewrite map_app. apply Forall_app_single; assumption.
+    - exact H3.
+    - unfold start_global; cbn [fst running]. intros r k t Hin Hr'.
+      apply in_app_or in Hin. destruct Hin as [Hin|[<-|[]]]; [eapply H4; eassumption | discriminate].
+  Qed.
+
+  Lemma Jp_start_in_group q k g it :
+    Jp q -> Pi it -> it_grp it = Some k -> glookup k (groups q) = Some g ->
+    has_space (gcur q) (gmax q) (it_w it) = true ->
+    has_space (g_cur g) (g_max g) (it_w it) = true ->
+    Jp (fst (start_in_group q k g it)).
+  Proof.
+    intros (Hi & (Hp & Hr & Hq) & H3 & H4) Hit Hg Hk Hs Hsg.
+    split; [apply start_in_group_inv; assumption|split; [|split]].
+    - split; [exact Hp|split].
+      + unfold start_in_group; cbn [fst running]. rewrite map_app. apply Forall_app_single; assumption.
+      + unfold start_in_group; cbn [fst groups].
+        apply (gupdate_forall (fun g => Forall Pi (g_queue g)) k g _ _ Hk); [|exact Hq].
+        cbn [g_queue]. apply (Hq k g Hk).
+    - unfold start_in_group; cbn [fst groups].
+      apply (gupdate_forall_k (fun k g => Forall (fun it => it_grp it = Some k) (g_queue g)) k g _ _ Hk);
+        [|exact H3]. cbn [g_queue]. apply (H3 k g Hk).
+    - unfold start_in_group; cbn [fst running]. intros r k' t Hin Hr'.
+      apply in_app_or in Hin. destruct Hin as [Hin|[<-|[]]]; [eapply H4; eassumption|].
+      cbn [r_grp r_item] in *. injection Hr' as <- _. exact Hg.
+  Qed.
+
+  Lemma Jp_enqueue q k g it :
+    Jp q -> Pi it -> it_grp it = Some k -> glookup k (groups q) = Some g -> Jp (enqueue q k g it).
+  Proof.
+    intros (Hi & (Hp & Hr & Hq) & H3 & H4) Hit Hg Hk.
+    split; [apply enqueue_inv; assumption|split; [|split]].
+    - split; [exact Hp|split; [exact Hr|]]. unfold enqueue, set_groups; cbn [groups].
+      apply (gupdate_forall (fun g => Forall Pi (g_queue g)) k g _ _ Hk); [|exact Hq].
+      cbn [g_queue]. apply Forall_app_single; [apply (Hq k g Hk) | exact Hit].
+    - unfold enqueue, set_groups; cbn [groups].
+      apply (gupdate_forall_k (fun k g => Forall (fun it => it_grp it = Some k) (g_queue g)) k g _ _ Hk);
+        [|exact H3]. cbn [g_queue]. apply Forall_app_single; [apply (H3 k g Hk) | exact Hg].
+    - exact H4.
+  Qed.
+
+  Lemma Jp_set_queue q k l :
+    Jp q -> Forall Pi l -> Forall (fun it => it_grp it = Some k) l -> Jp (set_queue q k l).
+  Proof.
+    intros (Hi & (Hp & Hr & Hq) & H3 & H4) Hl Hlk.
+    split; [apply set_queue_inv; exact Hi|]. unfold set_queue.
+    destruct (glookup k (groups q)) as [g|] eqn:Hk;
+      [|split; [split; [|split]; assumption|split; assumption]].
+    split; [|split].
+    - split; [exact Hp|split; [exact Hr|]]. unfold set_groups; cbn [groups].
+      apply (gupdate_forall (fun g => Forall Pi (g_queue g)) k g _ _ Hk); [exact Hl | exact Hq].
+    - unfold set_groups; cbn [groups].
+      apply (gupdate_forall_k (fun k g => Forall (fun it => it_grp it = Some k) (g_queue g)) k g _ _ Hk);
+        [exact Hlk | exact H3].
+    - exact H4.
+  Qed.
+
+  Lemma Jp_release q r l1 l2 :
+    Jp q -> running q = l1 ++ r :: l2 -> Jp (release q r (l1 ++ l2)).
+  Proof.
+    intros (Hi & (Hp & Hr & Hq) & H3 & H4) Hrun.
+    split; [apply release_inv; assumption|split; [|split]].
+    - split; [exact Hp|split].
+      + unfold release; cbn [running]. rewrite Hrun in Hr. rewrite map_app in *. cbn [map] in Hr.
+        apply Forall_app in Hr. destruct Hr as [Ha Hb]. apply Forall_app. split; [exact Ha|].
+        exact (Forall_inv_tail Hb).
+      + unfold release; cbn [groups]. destruct (r_grp r) as [[k t]|]; [|exact Hq].
+        destruct (glookup k (groups q)) as [g|] eqn:Hk; [|exact Hq].
+        apply (gupdate_forall (fun g => Forall Pi (g_queue g)) k g _ _ Hk); [|exact Hq].
+        cbn [g_queue]. apply (Hq k g Hk).
+    - unfold release; cbn [groups]. destruct (r_grp r) as [[k t]|]; [|exact H3].
+      destruct (glookup k (groups q)) as [g|] eqn:Hk; [|exact H3].
+      apply (gupdate_forall_k (fun k g => Forall (fun it => it_grp it = Some k) (g_queue g)) k g _ _ Hk);
+        [|exact H3]. cbn [g_queue]. apply (H3 k g Hk).
+    - unfold release; cbn [running]. intros r0 k t Hin. apply H4. rewrite Hrun.
+      apply in_app_or in Hin. apply in_or_app. destruct Hin; [left | right; right]; assumption.
+  Qed.
+
+  Lemma fill_loop_J l : forall q, Forall Pi l -> J q -> J (fst (fill_loop l q)).
+  Proof.
+    induction l as [|it rest IH]; intros q Hl [Hjp H5]; cbn [fill_loop].
+    - split; [apply Jp_set_pending; [exact Hjp | constructor] | exact H5].
+    - pose proof (Forall_inv Hl) as Hit. pose proof (Forall_inv_tail Hl) as Hrest.
+      destruct (has_space (gcur q) (gmax q) (it_w it)) eqn:Hs;
+        [|split; [apply Jp_set_pending; assumption | exact H5]].
+      destruct (it_grp it) as [k|] eqn:Eg.
+      + destruct (glookup k (groups q)) as [g|] eqn:Hk;
+          [|split; [apply (Jp_set_pending q rest); assumption | exact H5]].
+        destruct (has_space (g_cur g) (g_max g) (it_w it)) eqn:Hsg; cbn [fst]; apply IH; try exact Hrest.
+        * split; [apply Jp_start_in_group; assumption|].
+          intros k' g1 Hk' Hne. unfold start_in_group in *; cbn [fst groups running] in *.
+          destruct (lookup_gupdate_cases _ _ _ _ _ _ Hk Hk') as [[-> ->]|[Hd Hlk]].
+          -- cbn [g_queue] in Hne. destruct (H5 k g Hk Hne) as (r & Hin & Hr).
+             exists r. split; [apply in_or_app; left; exact Hin | exact Hr].
+          -- destruct (H5 k' g1 Hlk Hne) as (r & Hin & Hr).
+             exists r. split; [apply in_or_app; left; exact Hin | exact Hr].
+        * split; [apply Jp_enqueue; assumption|].
+          intros k' g1 Hk' Hne. unfold enqueue, set_groups in *; cbn [groups running] in *.
+          destruct (lookup_gupdate_cases _ _ _ _ _ _ Hk Hk') as [[-> ->]|[Hd Hlk]].
+          -- (* the group is full, so a member is in progress *)
+             destruct Hjp as ((_ & _ & _ & Hgrp) & _). destruct (Hgrp k g Hk) as (G1 & G2 & _).
+             apply group_load_pos_member with (gm := g_max g). rewrite <- G1.
+             unfold has_space, capw in Hsg. apply N.leb_gt in Hsg. lia.
+          -- exact (H5 k' g1 Hlk Hne).
+      + cbn [fst]. apply IH; [exact Hrest|].
+        split; [apply Jp_start_global; assumption|].
+        intros k' g1 Hk' Hne. unfold start_global in *; cbn [fst groups running] in *.
+        destruct (H5 k' g1 Hk' Hne) as (r & Hin & Hr).
+        exists r. split; [apply in_or_app; left; exact Hin | exact Hr].
+  Qed.
+
+  Lemma fq_fill_J q : J q -> J (fst (fq_fill q)).
+  Proof.
+    intros Hq. unfold fq_fill. destruct (panicked q); [exact Hq|].
+    apply fill_loop_J; [|exact Hq]. destruct Hq as ((_ & (Hp & _) & _) & _). exact Hp.
+  Qed.
+
+  Lemma drain_loop_J k queue : forall q,
+    Jp q -> (forall k', k' <> k -> J5 q k') ->
+    Forall Pi queue -> Forall (fun it => it_grp it = Some k) queue ->
+    (forall it rest, queue = it :: rest ->
+       (exists r, In r (running q) /\ in_group k r = true) \/
+       (forall g, glookup k (groups q) = Some g ->
+          has_space (gcur q) (gmax q) (it_w it) = true /\
+          has_space (g_cur g) (g_max g) (it_w it) = true)) ->
+    J (fst (drain_loop k queue q)).
+  Proof.
+    induction queue as [|it rest IH]; intros q Hjp Hoth Hl Hlk Hhead; cbn [drain_loop].
+    - cbn [fst]. split; [apply Jp_set_queue; [exact Hjp|constructor|constructor]|].
+      intros k' g1 Hk' Hne. destruct (set_queue_lookup _ _ _ _ _ Hk') as [[-> Hq]|[Hd Hlk']].
+      + contradiction.
+      + rewrite set_queue_running. exact (Hoth k' Hd g1 Hlk' Hne).
+    - pose proof (Forall_inv Hl) as Hit. pose proof (Forall_inv_tail Hl) as Hrest.
+      pose proof (Forall_inv Hlk) as Hitk. pose proof (Forall_inv_tail Hlk) as Hrestk.
+      destruct (glookup k (groups q)) as [g|] eqn:Hk.
+      2:{ cbn [fst]. split; [exact Hjp|]. intros k' g1 Hk' Hne. destruct (N.eq_dec k' k) as [->|Hd]; [congruence|].
+          exact (Hoth k' Hd g1 Hk' Hne). }
+      assert (Hstop : J (set_queue q k (it :: rest)) \/
+                      (has_space (gcur q) (gmax q) (it_w it) = true /\
+                       has_space (g_cur g) (g_max g) (it_w it) = true)).
+      { destruct (has_space (gcur q) (gmax q) (it_w it)) eqn:Hs;
+          [destruct (has_space (g_cur g) (g_max g) (it_w it)) eqn:Hsg; [right; auto|]|];
+          left; (split; [apply Jp_set_queue; assumption|]);
+          intros k' g1 Hk' Hne; destruct (set_queue_lookup _ _ _ _ _ Hk') as [[-> Hq]|[Hd Hlk']];
+          try (rewrite set_queue_running; exact (Hoth k' Hd g1 Hlk' Hne));
+          rewrite set_queue_running;
+          (destruct (Hhead it rest eq_refl) as [Hm|Hf]; [exact Hm|]);
+          destruct (Hf g eq_refl) as [F1 F2]; congruence. }
+      destruct (has_space (gcur q) (gmax q) (it_w it)) eqn:Hs; cbn [andb].
+      + destruct (has_space (g_cur g) (g_max g) (it_w it)) eqn:Hsg.
+        * cbn [fst]. apply IH; try assumption.
+          -- apply Jp_start_in_group; assumption.
+          -- intros k' Hd g1 Hk' Hne. unfold start_in_group in *; cbn [fst groups running] in *.
+             rewrite glookup_gupdate_other in Hk' by exact Hd.
+             destruct (Hoth k' Hd g1 Hk' Hne) as (r & Hin & Hr).
+             exists r. split; [apply in_or_app; left; exact Hin | exact Hr].
+          -- intros it' rest' _. left. unfold start_in_group; cbn [fst running].
+             eexists. split; [apply in_or_app; right; left; reflexivity|].
+             unfold in_group; cbn [r_grp]. apply N.eqb_refl.
+        * destruct Hstop as [Hj|[_ F2]]; [exact Hj | congruence].
+      + destruct Hstop as [Hj|[F1 _]]; [exact Hj | congruence].
+  Qed.
+
+  Lemma J5_release_other q r l1 l2 k' :
+    J5 q k' -> in_group k' r = false -> running q = l1 ++ r :: l2 ->
+    J5 (release q r (l1 ++ l2)) k'.
+  Proof.
+    intros H5 Hr Hrun g1 Hk1 Hne.
+    destruct (release_lookup _ _ _ _ _ Hk1) as (g0 & Hk0 & Hq). rewrite <- Hq in Hne.
+    destruct (H5 g0 Hk0 Hne) as (r0 & Hin & Hr0). exists r0. split; [|exact Hr0].
+    unfold release; cbn [running]. rewrite Hrun in Hin.
+    apply in_app_or in Hin. apply in_or_app. destruct Hin as [H|[<-|H]]; auto. congruence.
+  Qed.
+
+  Lemma fq_pop_J q id res : J q -> fq_pop q id = Some res -> J (fst res).
+  Proof.
+    intros [Hjp H5]. unfold fq_pop. destruct (panicked q); [discriminate|].
+    destruct (take_running id (running q)) as [[r rest]|] eqn:Et; [|discriminate].
+    destruct (take_running_spec _ _ _ _ Et) as (l1 & l2 & Hrun & -> & _).
+    pose proof (Jp_release q r l1 l2 Hjp Hrun) as Hrel.
+    destruct (r_grp r) as [[k t]|] eqn:Er.
+    - assert (Hoth : forall k', k' <> k -> J5 (release q r (l1 ++ l2)) k').
+      { intros k' Hd. apply J5_release_other; [apply H5| |exact Hrun].
+        unfold in_group. rewrite Er. apply N.eqb_neq. exact Hd. }
+      destruct (glookup k (groups (release q r (l1 ++ l2)))) as [g1|] eqn:Hk1.
+      + intros H; injection H as <-. cbn [fst].
+        destruct Hrel as (Hi1 & (Hp1 & Hr1 & Hq1) & H31 & H41) eqn:Erel. clear Erel.
+        apply drain_loop_J.
+        * split; [exact Hi1|split; [split; [exact Hp1|split; assumption]|split; assumption]].
+        * exact Hoth.
+        * apply (Hq1 k g1 Hk1).
+        * apply (H31 k g1 Hk1).
+        * intros it rest Hqueue. right. intros g Hg. rewrite Hk1 in Hg. injection Hg as <-.
+          (* the group data before the release *)
+          destruct Hjp as ((C1 & C2 & _ & Cg) & (_ & Prun & Pq) & J3 & J4).
+          unfold release in Hk1; cbn [groups] in Hk1. rewrite Er in Hk1.
+          destruct (glookup k (groups q)) as [g0|] eqn:Hk0; [|congruence].
+          rewrite (glookup_gupdate_same _ _ _ _ Hk0) in Hk1. injection Hk1 as <-.
+          cbn [g_queue] in Hqueue. cbn [g_cur g_max].
+          destruct (Cg k g0 Hk0) as (_ & G2 & _).
+          assert (Hin_r : In r (running q)) by (rewrite Hrun; apply in_or_app; right; left; reflexivity).
+          assert (Hw : it_w it = it_w (r_item r)).
+          { apply (uniform_b_spec items it (r_item r) k Hu).
+            - pose proof (Pq k g0 Hk0) as F. rewrite Hqueue in F. exact (Forall_inv F).
+            - rewrite Forall_forall in Prun. apply Prun. apply in_map. exact Hin_r.
+            - pose proof (J3 k g0 Hk0) as F. rewrite Hqueue in F. exact (Forall_inv F).
+            - exact (J4 r k t Hin_r Er). }
+          unfold release; cbn [gcur gmax]. rewrite Hw. unfold has_space.
+          split; apply N.leb_le; lia.
+      + intros H; injection H as <-. cbn [fst]. split; [exact Hrel|].
+        intros k' g1 Hk' Hne. destruct (N.eq_dec k' k) as [->|Hd]; [congruence|].
+        exact (Hoth k' Hd g1 Hk' Hne).
+    - intros H; injection H as <-. cbn [fst]. split; [exact Hrel|].
+      intros k'. apply J5_release_other; [apply H5| |exact Hrun]. unfold in_group. rewrite Er. reflexivity.
+  Qed.
+
+  Lemma fq_step_J q o : J q -> J (fst (fq_step q o)).
+  Proof.
+    intros Hq. destruct o as [|id|id]; cbn [fq_step].
+    - apply fq_fill_J; exact Hq.
+    - destruct (fq_pop q id) as [res|] eqn:E; [|exact Hq]. cbn [fst].
+      apply fq_fill_J. eapply fq_pop_J; eassumption.
+    - destruct (fq_pop q id) as [res|] eqn:E; [|exact Hq]. eapply fq_pop_J; eassumption.
+  Qed.
+
+  Lemma J_new gm grps : J (fq_new gm grps items).
+  Proof.
+    split; [split; [apply fq_new_inv|split; [|split]]|].
+    - apply fq_prov_new. apply Forall_forall. intros x Hx; exact Hx.
+    - unfold fq_new; cbn [groups]. intros k g Hk. apply glookup_new in Hk. destruct Hk as [m ->]. constructor.
+    - intros r k t [].
+    - unfold fq_new; cbn [groups]. intros k g Hk Hne. apply glookup_new in Hk. destruct Hk as [m ->].
+      exfalso; apply Hne; reflexivity.
+  Qed.
+
+  (* outside F7's class every complete run starts every item *)
+  Lemma all_started_uniform gm grps ids :
+    NoDup (map fst grps) -> all_started gm grps items ids.
+  Proof.
+    intros Hnd. unfold all_started, complete_run.
+    set (q := fst (fq_run (fq_new gm grps items) (OpFill :: map OpComplete ids))).
+    intros Hrun Hpan.
+    assert (HJ : J q) by (apply (fq_run_pres J fq_step_J), J_new).
+    assert (HF : filled q).
+    { unfold q. rewrite fq_run_cons; cbn [fst]. apply run_completes_filled. cbn [fq_step]. apply fq_fill_filled. }
+    assert (HK : keys_are (map fst grps) q).
+    { apply (fq_run_pres (keys_are (map fst grps))); [intros; apply keys_step; assumption|].
+      unfold keys_are, fq_new; cbn [groups]. rewrite map_map. cbn [fst]. reflexivity. }
+    destruct HJ as [(Hi & _) H5]. unfold unstarted.
+    assert (Hpend : pending q = []).
+    { destruct HF as [Hp|[Hp|(it & rest & Hp & Hs)]]; [congruence | exact Hp|].
+      destruct Hi as (C1 & _). rewrite Hrun in C1. cbn in C1.
+      unfold has_space in Hs. rewrite C1 in Hs. apply N.leb_gt in Hs. lia. }
+    rewrite Hpend. cbn [app]. unfold queued_items. apply flat_map_nil. intros [k g] Hin. cbn [snd].
+    destruct (g_queue g) as [|it rest] eqn:Eq; [reflexivity|]. exfalso.
+    assert (Hk : glookup k (groups q) = Some g).
+    { apply In_glookup_NoDup; [rewrite HK; exact Hnd | exact Hin]. }
+    destruct (H5 k g Hk) as (r & Hr & _); [rewrite Eq; discriminate|]. rewrite Hrun in Hr. exact Hr.
+  Qed.
+End Live.
